@@ -272,7 +272,10 @@ def run_trace(fs, trace, flog, preempt, collect_states=False):
             for v in vs:
                 rec = {"prop": "C09", "inv": v["inv"], "step": idx, "op": op, "phase": phase,
                        "slot": sid, "detail": v}
-                if sl.zone is not None:
+                if sl.zone is not None and sl.zone[0] == "dup-pairs":
+                    if v.get("pair") and frozenset(v["pair"]) in sl.zone[1]:
+                        rec["cause"] = "reduce-amount-two-junction-cell"
+                elif sl.zone is not None:
                     zc, zv = sl.zone
                     if v.get("cell") in zc or v.get("vertex") in zv or \
                             (v.get("pair") and any(x in zv for x in v["pair"])):
@@ -375,6 +378,13 @@ def run_trace(fs, trace, flog, preempt, collect_states=False):
                 emit(idx, "parse", sid, inp["kind"], inp.get("path", ""), outcome, noise)
                 if not sl.dead:
                     probe("parsed:" + sl.origin)
+                sl.zone = None
+                if not sl.dead and inp["kind"] in ("raster", "image") and inp.get("reduce_amount") \
+                        and MO.check_mesh(*sl.mesh):
+                    # facts for the cause class 'reduce-amount-two-junction-cell': the same image parsed
+                    # without the collinear-point reduction is consistent and has junction pairs joined by
+                    # two or more interfaces (a cell with exactly two junctions)
+                    sl.zone = _dup_pair_zone(fs, inp, f"mem:{sid}")
             elif op in ("generate_mesh", "frame", "reduce_amount"):
                 ks = sorted(slots)
                 sl = slots[ks[st["slot"] % len(ks)]] if ks else None
@@ -557,7 +567,29 @@ def run_trace(fs, trace, flog, preempt, collect_states=False):
             "states": sorted(map(repr, states)) if collect_states else []}
 
 
+def _dup_pair_zone(fs, inp, name):
+    """-> ("dup-pairs", {frozenset(end pair)}) for the image parsed WITHOUT reduce_amount, or None."""
+    try:
+        plain = dict(inp, reduce_amount=False)
+        with seams.quiet():
+            m0 = _build_input(fs, plain, name)
+        if MO.check_mesh(*m0):
+            return None
+        an = RO.analyse(MO.snapshot(*m0))
+        cnt = {}
+        for p in an["interfaces"]:
+            if p[0] != p[-1]:
+                k = frozenset((p[0], p[-1]))
+                cnt[k] = cnt.get(k, 0) + 1
+        dup = {k for k, n in cnt.items() if n >= 2}
+        return ("dup-pairs", dup) if dup else None
+    except Exception:
+        return None
+
+
 def _in_zone(v, zone):
+    if zone[0] == "dup-pairs":
+        return False
     zc, zv = zone
     if v.get("cell") in zc or v.get("vertex") in zv:
         return True
